@@ -57,30 +57,24 @@ impl InstanceState {
                     self.instance_state = InstanceStateKind::NotAliveNoWriters;
                 }
             }
+            // An instance that becomes alive again starts a new generation, which the application
+            // has not seen yet. Becoming not alive does not change the view state
             InstanceStateKind::NotAliveDisposed => {
                 if change_kind == ChangeKind::Alive {
                     self.instance_state = InstanceStateKind::Alive;
                     self.most_recent_disposed_generation_count += 1;
+                    self.view_state = ViewStateKind::New;
                 }
             }
             InstanceStateKind::NotAliveNoWriters => {
                 if change_kind == ChangeKind::Alive {
                     self.instance_state = InstanceStateKind::Alive;
                     self.most_recent_no_writers_generation_count += 1;
-                }
-            }
-        }
-
-        match self.view_state {
-            ViewStateKind::New => (),
-            ViewStateKind::NotNew => {
-                if change_kind == ChangeKind::NotAliveDisposed
-                    || change_kind == ChangeKind::NotAliveUnregistered
-                {
                     self.view_state = ViewStateKind::New;
                 }
             }
         }
+
         if let Some(t) = now {
             self.last_received_time_stamp = t;
         }
